@@ -18,37 +18,37 @@ import (
 // ---- registry (/verif/checks.json) ----
 
 type HarnessSpec struct {
-	Pkg             string                    `json:"pkg"`
-	Fn              string                    `json:"fn"`
-	Quick           map[string]int            `json:"quick"`
-	Thorough        map[string]int            `json:"thorough"`
-	Stubs           map[string]string         `json:"stubs,omitempty"`
-	StubSets        []string                  `json:"stubsets,omitempty"`
-	TabSets         []string                  `json:"tabsets,omitempty"`
-	Tabulate        []string                  `json:"tabulate,omitempty"`
-	MapOrder        bool                      `json:"maporder,omitempty"`
-	BudgetViolation bool                      `json:"budget_violation,omitempty"`
-	StepBudget      int                       `json:"step_budget,omitempty"`
-	DepthBudget     int                       `json:"depth_budget,omitempty"`
-	LockMonitor     bool                      `json:"lock_monitor,omitempty"`
-	FullSchemaLib   bool                      `json:"full_schema_lib,omitempty"`
-	MaxPaths        int                       `json:"max_paths,omitempty"`
-	MaxPathsThorough int                      `json:"max_paths_thorough,omitempty"`
-	Instances       []map[string]int          `json:"instances,omitempty"`          // extra bound sets, each run separately (quick and thorough)
-	InstancesThorough []map[string]int        `json:"instances_thorough,omitempty"` // thorough-only instances
-	NoReplayKinds   []string                  `json:"no_replay_kinds,omitempty"`
-	NoReplayAsserts []string                  `json:"no_replay_asserts,omitempty"` // assertions about engine-only observations (lock state): not reproducible natively
-	ReplayRepeat    int                       `json:"replay_repeat,omitempty"` // native replays per counterexample (order-dependent behaviour shows up only in some runs)
-	TimeoutMs       int                       `json:"solver_timeout_ms,omitempty"`
-	Claim           string                    `json:"claim,omitempty"`
-	Fixtures        int                       `json:"fixtures,omitempty"`          // translator validation: number of /repo/testdata fixtures sampled (quick); -1 = all
-	FixturesThorough int                      `json:"fixtures_thorough,omitempty"` // same, thorough tier
-	FixtureMaxBytes int                       `json:"fixture_max_bytes,omitempty"`
+	Pkg               string            `json:"pkg"`
+	Fn                string            `json:"fn"`
+	Quick             map[string]int    `json:"quick"`
+	Thorough          map[string]int    `json:"thorough"`
+	Stubs             map[string]string `json:"stubs,omitempty"`
+	StubSets          []string          `json:"stubsets,omitempty"`
+	TabSets           []string          `json:"tabsets,omitempty"`
+	Tabulate          []string          `json:"tabulate,omitempty"`
+	MapOrder          bool              `json:"maporder,omitempty"`
+	BudgetViolation   bool              `json:"budget_violation,omitempty"`
+	StepBudget        int               `json:"step_budget,omitempty"`
+	DepthBudget       int               `json:"depth_budget,omitempty"`
+	LockMonitor       bool              `json:"lock_monitor,omitempty"`
+	FullSchemaLib     bool              `json:"full_schema_lib,omitempty"`
+	MaxPaths          int               `json:"max_paths,omitempty"`
+	MaxPathsThorough  int               `json:"max_paths_thorough,omitempty"`
+	Instances         []map[string]int  `json:"instances,omitempty"`          // extra bound sets, each run separately (quick and thorough)
+	InstancesThorough []map[string]int  `json:"instances_thorough,omitempty"` // thorough-only instances
+	NoReplayKinds     []string          `json:"no_replay_kinds,omitempty"`
+	NoReplayAsserts   []string          `json:"no_replay_asserts,omitempty"` // assertions about engine-only observations (lock state): not reproducible natively
+	ReplayRepeat      int               `json:"replay_repeat,omitempty"`     // native replays per counterexample (order-dependent behaviour shows up only in some runs)
+	TimeoutMs         int               `json:"solver_timeout_ms,omitempty"`
+	Claim             string            `json:"claim,omitempty"`
+	Fixtures          int               `json:"fixtures,omitempty"`          // translator validation: number of /repo/testdata fixtures sampled (quick); -1 = all
+	FixturesThorough  int               `json:"fixtures_thorough,omitempty"` // same, thorough tier
+	FixtureMaxBytes   int               `json:"fixture_max_bytes,omitempty"`
 	// paths that end with one of these reasons are reported as "not executed" (evidence: paths_not_executed)
 	// instead of making the check inconclusive: used by the fixture harness, where a path is one concrete
 	// fixture and an oversized fixture says nothing about the property
-	ToleratedInconclusive []string            `json:"tolerated_inconclusive,omitempty"`
-	MaxWallS        int                       `json:"max_wall_s,omitempty"` // wall-clock cap per instance; default 1500 s quick, 6 h thorough
+	ToleratedInconclusive []string `json:"tolerated_inconclusive,omitempty"`
+	MaxWallS              int      `json:"max_wall_s,omitempty"` // wall-clock cap per instance; default 1500 s quick, 6 h thorough
 }
 
 var toleratedNotes = map[string]int{}
@@ -69,7 +69,7 @@ type KnownFinding struct {
 	ID           string `json:"id"`
 	SiteContains string `json:"site_contains,omitempty"`
 	MsgContains  string `json:"msg_contains,omitempty"`
-	InputRegex   string `json:"input_regex,omitempty"` // matched against the rendered model (JSON)
+	InputRegex   string `json:"input_regex,omitempty"`   // matched against the rendered model (JSON)
 	NoteContains string `json:"note_contains,omitempty"` // matched against the harness notes attached to the violation
 	What         string `json:"what"`
 }
@@ -904,37 +904,37 @@ func buildEvidence(id, tier string, seed int, spec CheckSpec, reports []*sym.Rep
 	nontrivial := assertPaths
 	_ = nontrivial
 	cov := map[string]interface{}{
-		"explanation": "Bounded symbolic execution of the real Go code (SSA rebuilt from /repo's working tree on this run) with z3 deciding every branch-feasibility and assertion query; inputs within the stated bounds are symbolic bit-vectors, so each discharged obligation holds for all of them; counterexamples are replayed against the natively compiled code before being reported.",
-		"states":      paths,
-		"transitions": queries + domDecided,
+		"explanation":    "Bounded symbolic execution of the real Go code (SSA rebuilt from /repo's working tree on this run) with z3 deciding every branch-feasibility and assertion query; inputs within the stated bounds are symbolic bit-vectors, so each discharged obligation holds for all of them; counterexamples are replayed against the natively compiled code before being reported.",
+		"states":         paths,
+		"transitions":    queries + domDecided,
 		"solver_queries": queries,
 		"branch_decisions_by_byte_domain_enumeration": domDecided,
-		"traces_validated_against_impl": tracesValidated,
-		"evaluations":         paths,
-		"distinct_nontrivial": nontrivial,
-		"rule":                "evaluations = feasible execution paths explored (each path is a distinct class of inputs characterised by its path condition, all byte values of the class covered at once); distinct_nontrivial = those paths on which at least one assertion of this property was evaluated; an assertion instance is discharged either by an unsat answer for PC and not(c), or because c folded to true under a path condition whose every branch was decided by the solver (or by exhaustive evaluation over a single byte's 256 values)",
-		"obligations":         obligations + trivial,
-		"discharged":          discharged + trivial,
-		"discharged_by_solver_query": discharged,
-		"trivially_true":      trivial,
-		"violated":            violated,
-		"solver_unknown":      unknown,
-		"reach_witnesses":     fmt.Sprintf("%d/%d satisfied", reachHit, reachTotal),
-		"checker_cmd":         fmt.Sprintf("/verif/bin/gosym check %s --tier %s", id, tier),
-		"trusted_base":        []string{"go/types + go/ssa (x/tools v0.29.0) as the meaning of the source", "gosym interpreter, intrinsics and term builder", "z3 4.8.12", "harness reference oracles and stub contracts (listed under functions_encoded / assumptions)", "native Go toolchain for replay"},
-		"samples":             samples,
-		"exhaustive":          len(inconclusive) == 0,
-		"harness_runs":        perHarness,
-		"functions_encoded":   fl,
-		"solver_time_s":       solverTime.Seconds(),
-		"instructions":        steps,
-		"load_and_ssa_build_s": loadTime.Seconds(),
-		"inconclusive":        incList,
-		"unconfirmed_counterexamples": unconfirmed,
-		"known_findings_seen": knownList,
-		"not_decided":         spec.NotDecided,
-		"paths_not_executed":  toleratedNotes,
-		"map_range_sites_explored_in_all_orders": sites,
+		"traces_validated_against_impl":               tracesValidated,
+		"evaluations":                                 paths,
+		"distinct_nontrivial":                         nontrivial,
+		"rule":                                        "evaluations = feasible execution paths explored (each path is a distinct class of inputs characterised by its path condition, all byte values of the class covered at once); distinct_nontrivial = those paths on which at least one assertion of this property was evaluated; an assertion instance is discharged either by an unsat answer for PC and not(c), or because c folded to true under a path condition whose every branch was decided by the solver (or by exhaustive evaluation over a single byte's 256 values)",
+		"obligations":                                 obligations + trivial,
+		"discharged":                                  discharged + trivial,
+		"discharged_by_solver_query":                  discharged,
+		"trivially_true":                              trivial,
+		"violated":                                    violated,
+		"solver_unknown":                              unknown,
+		"reach_witnesses":                             fmt.Sprintf("%d/%d satisfied", reachHit, reachTotal),
+		"checker_cmd":                                 fmt.Sprintf("/verif/bin/gosym check %s --tier %s", id, tier),
+		"trusted_base":                                []string{"go/types + go/ssa (x/tools v0.29.0) as the meaning of the source", "gosym interpreter, intrinsics and term builder", "z3 4.8.12", "harness reference oracles and stub contracts (listed under functions_encoded / assumptions)", "native Go toolchain for replay"},
+		"samples":                                     samples,
+		"exhaustive":                                  len(inconclusive) == 0,
+		"harness_runs":                                perHarness,
+		"functions_encoded":                           fl,
+		"solver_time_s":                               solverTime.Seconds(),
+		"instructions":                                steps,
+		"load_and_ssa_build_s":                        loadTime.Seconds(),
+		"inconclusive":                                incList,
+		"unconfirmed_counterexamples":                 unconfirmed,
+		"known_findings_seen":                         knownList,
+		"not_decided":                                 spec.NotDecided,
+		"paths_not_executed":                          toleratedNotes,
+		"map_range_sites_explored_in_all_orders":      sites,
 	}
 	ev := map[string]interface{}{
 		"property_id": id,
